@@ -134,6 +134,9 @@ def prc2(ctx, lib, prec_fn):
             if lt_ok == [True] and sg == [False]:
                 n_ok += 1
                 ctx.ok("PRC-2", "%s|grouped|%s" % (b.path, ";".join("%s=%s" % kv for kv in l.label)), None, b.loc())
+            elif not lt_ok and not sg and [v for k, v in lt]:
+                # the parenthesised text is not recognisably one of the compared operands (it was transformed on the way): no verdict rather than a guess
+                ctx.undecided("PRC-2", b.path, "cannot relate the parenthesised text %s to the operands of the precedence comparison" % ccp.show(h.v)[:80], b.loc())
             else:
                 ctx.violation("PRC-2", (b.path, "grouped without need"), "a child is parenthesised on a path where `precedence(child) < precedence(parent)` is %s and "
                               "`child is a single code point` is %s (facts: %s)" % (lt_ok, sg, l.label), b.loc())
@@ -206,10 +209,19 @@ def run(ctx):
     ctx.rule("UNI-2", "`x?` is built from the alternative that is not the one known to be empty")
     ctx.rule("UNI-3", "a removed common prefix is re-attached in front and a removed common suffix behind the factored rest")
     uni(ctx, lib)
-    from . import counting
+    ctx.rule("CON-1", "concatenate(a, b): on every abstract path everything derived from a precedes everything derived from b in the returned expression")
+    ctx.rule("REV-1", "no insert(0, item) inside a forward loop over the items being copied (reverses the run)")
+    con1(ctx, lib)
+    from . import counting, minimise
+    minimise.rules(ctx)
+    minimise.check(ctx, lib)
+    from . import substring
+    substring.rules(ctx)
+    substring.check(ctx, lib)
     counting.rules(ctx)
     counting.cnt1(ctx, lib)
     counting.cnt2(ctx, lib)
+    counting.chr1(ctx, lib)
     ctx.rule("BRZ-1", "every update of the equation system in the state-elimination function has the shape of Brzozowski's algebraic method "
                       "(b[n]=a[n,n]*b[n]; a[n,j]=a[n,n]*a[n,j]; b[i]=b[i]+a[i,n]b[n]; a[i,j]=a[i,j]+a[i,n]a[n,j]; n = reversed loop variable)")
     brz1(ctx, lib)
@@ -262,37 +274,60 @@ def uni(ctx, lib):
                 ctx.ok("UNI-1", "%s:class merge under single-code-point guards" % body.path, {"guards": sorted(set(singles.values()))}, body.loc(t.get("line")))
     # UNI-2: `x?` is built from the non-empty side (abstract paths of the union function; crate helpers that build the optional are inlined)
     uni2(ctx, lib)
-    # UNI-3: a removed common prefix is re-attached in front, a removed common suffix behind
-    conc = [b for b in lib.bodies if b.kind == "assoc_fn" and b.sig_output == "expression::Expression"
-            and len([t for t in b.sig_inputs if t == EXPR]) == 2]
+    # UNI-3: a removed common prefix is re-attached in front, a removed common suffix behind (abstract paths of the union function; helpers inlined)
+    uni3(ctx, lib)
+
+
+def uni3(ctx, lib):
+    from sa import ccp
+    opt = "&std::option::Option<%s>" % EXPR
+    us = [b for b in lib.bodies if b.kind in ("assoc_fn", "fn") and len([t for t in b.sig_inputs if t == opt]) == 2 and b.sig_output == opt[1:]]
+    preds = {b.path for b in lib.bodies if b.sig_inputs == ["&" + EXPR] and b.sig_output == "bool"}
     n3 = 0
-    for c_ in conc:
-        for body, bi, t in guards.call_sites(lib, c_.path):
-            fi = guards.FnInfo.of(body)
-            kinds = []
-            for ai, a in enumerate(t["args"][:2]):
-                ao = local.peel(fi.defs.operand(a))
-                # only an operand that *is* a literal built from the removed substring counts (not the factored rest, which may
-                # itself contain an earlier re-attachment)
-                if not (ao[0] == "call" and lib.body(ao[1]) is not None and any("cluster::GraphemeCluster" in ty for ty in lib.body(ao[1]).sig_inputs)):
-                    continue
-                for x in local.walk(ao):
-                    if x[0] == "call" and lib.body(x[1]) is not None and any(y[0] == "agg" and y[2] and y[2].startswith("substring::Substring::") for z in x[2] for y in local.walk(z)):
-                        for z in x[2]:
-                            for y in local.walk(z):
-                                if y[0] == "agg" and y[2] and y[2].startswith("substring::Substring::"):
-                                    kinds.append((ai, y[2].rsplit("::", 1)[1]))
-            kinds = sorted(set(kinds))
-            if not kinds:
+    for u in us:
+        def inl(n):
+            x = lib.body(n)
+            return x is not None and n != u.path and x.sig_output in (EXPR, opt[1:]) and n not in preds and not x.derived and not x.impl_trait
+        leaves = ccp.Machine([lib], inline=inl, max_leaves=6000).run(u, None)
+
+        def affix(v):
+            """'P' / 'S' if the literal's cluster is built from the result of the common-substring removal with that side"""
+            for x in _walk_v(v):
+                if isinstance(x, ccp.Call) and lib.body(x.callee) is not None and any(
+                        isinstance(a_, ccp.Agg) and a_.kind == "adt" and a_.label.startswith("substring::Substring::") for a_ in x.args):
+                    side = [a_.label.rsplit("::", 1)[1] for a_ in x.args if isinstance(a_, ccp.Agg) and a_.kind == "adt" and a_.label.startswith("substring::Substring::")][0]
+                    return "P" if side == "Prefix" else "S"
+            return None
+
+        def seq(v):
+            if isinstance(v, ccp.Agg) and v.kind == "adt" and v.label.endswith("::Concatenation"):
+                return seq(v.fields[0]) + seq(v.fields[1])
+            if isinstance(v, ccp.Call) and v.callee.endswith("Box<T>>::from") and v.args:
+                return seq(v.args[0])
+            if isinstance(v, ccp.Agg) and v.kind == "adt" and v.label.endswith("::Some") and v.fields:
+                return seq(v.fields[0])
+            if isinstance(v, ccp.Agg) and v.kind == "adt" and v.label.endswith("::Literal"):
+                k = affix(v)
+                return [k or "X"]
+            return ["X"]
+        seen = {}
+        for l in leaves:
+            if l.kind != "return" or l.value is None:
                 continue
+            sq = seq(l.value)
+            if "P" not in sq and "S" not in sq:
+                continue
+            core = "".join(sq)
+            good = re.fullmatch(r"P?X+S?", core) is not None
+            seen.setdefault(core, good)
+        for core, good in sorted(seen.items()):
             n3 += 1
-            bad = [(ai, k) for ai, k in kinds if (k == "Prefix" and ai != 0) or (k == "Suffix" and ai != 1)]
-            if bad or len(kinds) != 1:
-                ctx.violation("UNI-3", (body.path, "re-attachment order"), "a removed common %s is re-attached as operand %d of the concatenation" % (
-                    (bad or kinds)[0][1].lower(), (bad or kinds)[0][0] + 1), body.loc(t.get("line")))
+            if good:
+                ctx.ok("UNI-3", "%s:result shape %s" % (u.path, core), None, u.loc())
             else:
-                ctx.ok("UNI-3", "%s:%s re-attached as operand %d" % (body.path, kinds[0][1], kinds[0][0] + 1), None, body.loc(t.get("line")))
-    ctx.floor("UNI-3", "re-attachments of a removed common prefix/suffix", n3, 2)
+                ctx.violation("UNI-3", (u.path, "re-attachment order " + core), "a result of the union reads, left to right, %s (P = removed common prefix, S = removed common suffix, "
+                              "X = factored rest): the prefix must come first and the suffix last" % core, u.loc())
+    ctx.floor("UNI-3", "result shapes re-attaching a removed common prefix/suffix", n3, 2)
 
 
 def _walk_v(v):
@@ -373,6 +408,102 @@ def uni2(ctx, lib):
                 ctx.ok("UNI-2", "%s:%s" % (u.path, msg), {"paths": len(leaves)}, u.loc())
     if ctx.floor("UNI-2", "functions whose result can be an alternation of their two arguments", n_u, 1):
         ctx.floor("UNI-2", "optional-side constructions", n2, 2)
+
+
+def con1(ctx, lib):
+    """CON-1: the sibling of union() that concatenates two optional expressions keeps the order of its operands: in every returned expression everything derived from the
+    first parameter precedes everything derived from the second (abstract paths, constructor helpers inlined; GraphemeCluster::merge(x, y) reads x before y).
+    REV-1: no element-wise copy that prepends (`insert(0, item)` inside a forward loop), which reverses the copied run."""
+    from sa import ccp, guards
+    opt = "&std::option::Option<%s>" % EXPR
+    cands = [b for b in lib.bodies if b.kind in ("assoc_fn", "fn") and len([t for t in b.sig_inputs if t == opt]) == 2 and b.sig_output == opt[1:]]
+    preds = {b.path for b in lib.bodies if b.sig_inputs == ["&" + EXPR] and b.sig_output == "bool"}
+    n = 0
+    for u in cands:
+        pnames = [u.locals[i + 1].get("name") or "arg%d" % (i + 1) for i, t in enumerate(u.sig_inputs) if t == opt]
+
+        def inl(nm):
+            x = lib.body(nm)
+            return x is not None and nm != u.path and x.sig_output in (EXPR, opt[1:]) and nm not in preds and not x.derived and not x.impl_trait
+        leaves = ccp.Machine([lib], inline=inl, max_leaves=6000).run(u, None)
+        rets = [l for l in leaves if l.kind == "return"]
+        if any(isinstance(x, ccp.Agg) and x.kind == "adt" and x.label.endswith("::Alternation") for l in rets for x in _walk_v(l.value)):
+            continue        # that one is union()
+        if not any(isinstance(x, ccp.Agg) and x.kind == "adt" and x.label.endswith("::Concatenation") for l in rets for x in _walk_v(l.value)):
+            continue
+        n += 1
+
+        def seq(v):
+            if isinstance(v, ccp.Sym):
+                return [v.name] if v.name in pnames else []
+            out = []
+            kids = []
+            if isinstance(v, ccp.Agg):
+                kids = list(v.fields)
+                if v.kind == "adt" and v.label.endswith(("::Concatenation", "::Literal", "::Repetition", "::Alternation", "::CharacterClass")):
+                    kids = [k for k in kids if not (isinstance(k, (ccp.Fld, ccp.Const)) and "config" in ccp.show(k))]
+            elif isinstance(v, ccp.Call):
+                kids = list(v.args)
+            elif isinstance(v, ccp.Fld):
+                kids = [v.base]
+            else:
+                for nm in ("a", "b", "v"):
+                    k = getattr(v, nm, None)
+                    if isinstance(k, ccp.V):
+                        kids.append(k)
+            for k in kids:
+                if isinstance(k, ccp.V):
+                    out += seq(k)
+            return out
+        bad = None
+        blind = None
+        for l in rets:
+            txt = ccp.show(l.value)
+            if "<loop" in txt or "⊤" in txt:
+                blind = txt[:80]
+                continue
+            sq = [x for i, x in enumerate(seq(l.value)) if i == 0 or x != seq(l.value)[i - 1]] if l.value is not None else []
+            sq2 = []
+            for x in seq(l.value):
+                if not sq2 or sq2[-1] != x:
+                    sq2.append(x)
+            if len(sq2) > 2 or (len(sq2) == 2 and sq2 != pnames):
+                bad = (sq2, txt)
+        if bad:
+            ctx.violation("CON-1", (u.path, "operand order"), "a result of the concatenation reads its operands in the order %s (expected %s before %s): the text of the two "
+                          "operands is swapped or interleaved: %s" % (bad[0], pnames[0], pnames[1], bad[1][:160]), u.loc())
+        elif blind:
+            ctx.undecided("CON-1", u.path, "a result is assembled in a loop the analysis cannot order (%s)" % blind, u.loc())
+        else:
+            ctx.ok("CON-1", u.path, {"paths": len(rets)}, u.loc())
+    ctx.floor("CON-1", "functions concatenating two optional expressions", n, 1)
+    # REV-1
+    nrev = 0
+    for b in lib.bodies:
+        if b.derived:
+            continue
+        fi = None
+        for bi, t in b.calls():
+            if not (callee_name(t) or "").endswith("Vec::<T, A>::insert") or len(t["args"]) != 3:
+                continue
+            fi = fi or guards.FnInfo.of(b)
+            idx = local.peel(fi.defs.operand(t["args"][1]))
+            if local.const_value(idx) != 0:
+                continue
+            item = fi.defs.operand(t["args"][2])
+            nx = [x for x in local.walk(item) if x[0] == "call" and x[1].endswith("Iterator>::next") and len(x) > 3]
+            loops = fi.cfg.natural_loops()
+            inloop = [x for x in nx if any(x[3] in body and bi in body for body in loops.values())]
+            if not inloop:
+                continue
+            nrev += 1
+            rev = any(y[0] == "call" and re.search(r"::rev$|::reverse$|DoubleEndedIterator>::next_back$", y[1]) for x in inloop for y in local.walk(x))
+            if rev:
+                ctx.ok("REV-1", b.path + ":prepend of a reversed run", None, b.loc(t.get("line")))
+            else:
+                ctx.violation("REV-1", (b.path, "prepend in a forward loop"), "items are copied with insert(0, item) while iterating forward: the copied run arrives reversed "
+                              "(a literal `dr` in front of `op` becomes `rdop`)", b.loc(t.get("line")))
+    ctx.extra["rev1_prepend_loops"] = nrev
 
 
 # ----------------------------------------------------------------------------- BRZ-1: state elimination follows the algebraic schema
